@@ -87,4 +87,239 @@ theorem exists_four (l : Bytes) (h : l.length = 4) : ∃ a b c d, l = [a, b, c, 
   match l, h with
   | [a, b, c, d], _ => exact ⟨a, b, c, d, rfl⟩
 
+theorem rconW_X (n : Nat) : rconW n = X (Spec.Aes.rcon n) 0 0 0 := by
+  unfold rconW X
+  simp
+
+/-- the `temp` of one step of `keyExpansion` -/
+def tempF (nk i : Nat) (temp : Bytes) : Bytes :=
+  if i % nk = 0 then
+    List.zipWith (· ^^^ ·) ((temp.drop 1 ++ temp.take 1).map sbox) [Spec.Aes.rcon (i / nk), 0, 0, 0]
+  else if nk > 6 ∧ i % nk = 4 then temp.map sbox
+  else temp
+
+theorem step_word (nk i : Nat) (u t : Bytes) (hu : u.length = 4) (ht : t.length = 4) :
+    (List.zipWith (· ^^^ ·) u (tempF nk i t)).length = 4 ∧
+    toW (List.zipWith (· ^^^ ·) u (tempF nk i t)) = toW u ^^^ gW nk i (toW t) := by
+  obtain ⟨a, b, c, d, rfl⟩ := exists_four u hu
+  obtain ⟨p, q, r, s, rfl⟩ := exists_four t ht
+  unfold tempF gW
+  split
+  · refine ⟨rfl, ?_⟩
+    have e : List.zipWith (· ^^^ ·) [a, b, c, d] (List.zipWith (· ^^^ ·)
+        ((List.drop 1 [p, q, r, s] ++ List.take 1 [p, q, r, s]).map sbox) [Spec.Aes.rcon (i / nk), 0, 0, 0]) =
+        [a ^^^ (sbox q ^^^ Spec.Aes.rcon (i / nk)), b ^^^ (sbox r ^^^ 0), c ^^^ (sbox s ^^^ 0), d ^^^ (sbox p ^^^ 0)] := rfl
+    rw [e, toW_four, toW_four, toW_four, subRot_X, rconW_X, X_xor, X_xor]
+  · split
+    · refine ⟨rfl, ?_⟩
+      have e : List.zipWith (· ^^^ ·) [a, b, c, d] ([p, q, r, s].map sbox) =
+          [a ^^^ sbox p, b ^^^ sbox q, c ^^^ sbox r, d ^^^ sbox s] := rfl
+      rw [e, toW_four, toW_four, toW_four, subWord_X, X_xor]
+    · refine ⟨rfl, ?_⟩
+      have e : List.zipWith (· ^^^ ·) [a, b, c, d] [p, q, r, s] = [a ^^^ p, b ^^^ q, c ^^^ r, d ^^^ s] := rfl
+      rw [e, toW_four, toW_four, toW_four, X_xor]
+
+theorem getD_push {α : Type} (w : Array α) (x d : α) (m : Nat) :
+    (w.push x).getD m d = if m = w.size then x else w.getD m d := by
+  simp only [Array.getD_eq_getD_getElem?, Array.getElem?_push]
+  split <;> simp
+
+/-- the word array of `keyExpansion` -/
+def kWords (key : Bytes) : Array Bytes :=
+  let nk := key.length / 4
+  (List.range (4 * (nk + 6 + 1) - nk)).foldl (fun (w : Array Bytes) j =>
+    w.push (List.zipWith (· ^^^ ·) (w.getD (j + nk - nk) []) (tempF nk (j + nk) (w.getD (j + nk - 1) []))))
+    ((Array.range nk).map fun i => (key.drop (4 * i)).take 4)
+
+theorem keyExpansion_eq (key : Bytes) :
+    keyExpansion key = (List.range (key.length / 4 + 6 + 1)).map fun r =>
+      (List.range 4).flatMap fun c => (kWords key).getD (4 * r + c) [] := rfl
+
+/-- the key as words -/
+def keyW (key : Bytes) (i : Nat) : UInt32 := Rijndael.getu32 key (4 * i)
+
+theorem kWords_spec (key : Bytes) (h4 : 4 ≤ key.length) :
+    (kWords key).size = 4 * (key.length / 4 + 6 + 1) ∧
+    ∀ m, m < (kWords key).size → ((kWords key).getD m []).length = 4 ∧
+      toW ((kWords key).getD m []) = W (key.length / 4) (keyW key) m := by
+  have hnk : 1 ≤ key.length / 4 := by omega
+  unfold kWords
+  simp only []
+  generalize hw : List.foldl _ _ _ = w
+  have hinv : w.size = key.length / 4 + (4 * (key.length / 4 + 6 + 1) - key.length / 4) ∧
+      ∀ m, m < w.size → (w.getD m []).length = 4 ∧ toW (w.getD m []) = W (key.length / 4) (keyW key) m := by
+    rw [← hw]
+    apply Relic.Lemmas.Aes.foldl_range_inv (fun j (w : Array Bytes) => w.size = key.length / 4 + j ∧
+      ∀ m, m < w.size → (w.getD m []).length = 4 ∧ toW (w.getD m []) = W (key.length / 4) (keyW key) m)
+    · refine ⟨by simp, ?_⟩
+      intro m hm
+      simp only [Array.size_map, Array.size_range] at hm
+      rw [W_lt _ _ _ hm]
+      have h3 : 4 * m + 3 < key.length := by omega
+      simp [hm, toW, keyW, Rijndael.getu32, List.getD_eq_getElem?_getD, List.getElem?_drop]
+      omega
+    · intro j w ⟨hsz, hall⟩
+      have e1 : j + key.length / 4 - key.length / 4 = j := by omega
+      rw [e1]
+      obtain ⟨ht, ht'⟩ := hall (j + key.length / 4 - 1) (by omega)
+      obtain ⟨hu, hu'⟩ := hall j (by omega)
+      have hstep := step_word (key.length / 4) (j + key.length / 4) _ _ hu ht
+      rw [ht', hu'] at hstep
+      have hW := W_ge (key.length / 4) (keyW key) (j + key.length / 4) (by omega) (by omega)
+      rw [e1] at hW
+      refine ⟨by simp [hsz]; omega, ?_⟩
+      intro m hm
+      simp only [Array.size_push] at hm
+      rw [getD_push]
+      split
+      · rename_i hmeq
+        have hm' : m = j + key.length / 4 := by omega
+        rw [hm']
+        exact ⟨hstep.1, hstep.2.trans hW.symm⟩
+      · exact hall m (by omega)
+  refine ⟨by rw [hinv.1]; omega, hinv.2⟩
+
+theorem keyExpansion_W (key : Bytes) (h4 : 4 ≤ key.length) :
+    (keyExpansion key).length = key.length / 4 + 6 + 1 ∧
+    ∀ r, r < key.length / 4 + 6 + 1 → ∀ c, c < 4 →
+      Rijndael.getu32 ((keyExpansion key).getD r []) (4 * c) = W (key.length / 4) (keyW key) (4 * r + c) := by
+  obtain ⟨hsz, hall⟩ := kWords_spec key h4
+  rw [keyExpansion_eq]
+  refine ⟨by simp, ?_⟩
+  intro r hr c hc
+  simp only [List.getD_eq_getElem?_getD, List.getElem?_map, List.getElem?_range hr, Option.map_some,
+    Option.getD_some, Relic.Lemmas.Aes.range4, List.flatMap_cons, List.flatMap_nil, List.append_nil]
+  obtain ⟨l0, e0⟩ := hall (4 * r + 0) (by omega)
+  obtain ⟨l1, e1⟩ := hall (4 * r + 1) (by omega)
+  obtain ⟨l2, e2⟩ := hall (4 * r + 2) (by omega)
+  obtain ⟨l3, e3⟩ := hall (4 * r + 3) (by omega)
+  obtain ⟨a0, b0, c0, d0, f0⟩ := exists_four _ l0
+  obtain ⟨a1, b1, c1, d1, f1⟩ := exists_four _ l1
+  obtain ⟨a2, b2, c2, d2, f2⟩ := exists_four _ l2
+  obtain ⟨a3, b3, c3, d3, f3⟩ := exists_four _ l3
+  rw [f0] at e0; rw [f1] at e1; rw [f2] at e2; rw [f3] at e3
+  rw [f0, f1, f2, f3]
+  have hc' : c = 0 ∨ c = 1 ∨ c = 2 ∨ c = 3 := by omega
+  rcases hc' with rfl | rfl | rfl | rfl
+  · exact e0
+  · exact e1
+  · exact e2
+  · exact e3
+
+/-! ## the C loops -/
+
+/-- the first n words of the array are the first n values of V; the array has the 60 words of the C caller -/
+def Agree (rk : Array UInt32) (n : Nat) (V : Nat → UInt32) : Prop :=
+  rk.size = 60 ∧ ∀ m, m < n → rk.getD m 0 = V m
+
+theorem getD_setIfInBounds (rk : Array UInt32) (p m : Nat) (v : UInt32) (hp : p < rk.size) :
+    (rk.setIfInBounds p v).getD m 0 = if m = p then v else rk.getD m 0 := by
+  simp only [Array.getD_eq_getD_getElem?, Array.getElem?_setIfInBounds]
+  by_cases h : p = m
+  · subst h; simp [hp]
+  · have h' : ¬ m = p := fun e => h e.symm
+    simp [h, h']
+
+theorem Agree.wr {rk : Array UInt32} {n : Nat} {V : Nat → UInt32} (h : Agree rk n V) (off k : Nat) (v : UInt32)
+    (rk' : Array UInt32) (hrk : rk' = Rijndael.wr rk off k v) (hk : off + k = n) (hn : n < 60) (hv : v = V n) :
+    Agree rk' (n + 1) V := by
+  subst hrk
+  unfold Rijndael.wr
+  refine ⟨by simp [h.1], ?_⟩
+  intro m hm
+  rw [getD_setIfInBounds _ _ _ _ (by rw [h.1]; omega), hk]
+  split
+  · rename_i e; rw [e, hv]
+  · exact h.2 m (by omega)
+
+theorem Agree.rd {rk : Array UInt32} {n : Nat} {V : Nat → UInt32} (h : Agree rk n V) (off k : Nat)
+    (hlt : off + k < n) : Rijndael.rd rk off k = V (off + k) := h.2 _ hlt
+
+theorem Agree.cast {rk : Array UInt32} {n n' : Nat} {V : Nat → UInt32} (h : Agree rk n V) (e : n = n') :
+    Agree rk n' V := e ▸ h
+
+theorem rcon_eq (i : Nat) (hi : i < 10) : Gen.AesTables.rcon.getD i 0 = rconW (i + 1) := by
+  have h := @Relic.Lemmas.AesTables.rcon_spec
+  have h2 := h i
+  have h3 := h2 hi
+  rw [rconW]
+  exact h3
+
+theorem W_rot (nk : Nat) (w0 : Nat → UInt32) (m p q r : Nat) (hp : p + nk = m) (hq : q + 1 = m) (hr : r * nk = m)
+    (hnk : 0 < nk) (hr1 : 1 ≤ r) :
+    W nk w0 m = W nk w0 p ^^^ (Rijndael.subRot (W nk w0 q) ^^^ rconW r) := by
+  have hge : nk ≤ m := by omega
+  have hmod : m % nk = 0 := by rw [← hr]; exact Nat.mul_mod_left r nk
+  have hdiv : m / nk = r := by rw [← hr]; exact Nat.mul_div_cancel r hnk
+  rw [W_ge nk w0 m hnk hge, gW, if_pos hmod, hdiv]
+  congr 2 <;> congr 1 <;> omega
+
+theorem W_plain (nk : Nat) (w0 : Nat → UInt32) (m p q : Nat) (hp : p + nk = m) (hq : q + 1 = m)
+    (hnk : 0 < nk) (hmod : m % nk ≠ 0) (h4 : ¬ (nk > 6 ∧ m % nk = 4)) :
+    W nk w0 m = W nk w0 p ^^^ W nk w0 q := by
+  rw [W_ge nk w0 m hnk (by omega), gW, if_neg hmod, if_neg h4]
+  congr 1 <;> congr 1 <;> omega
+
+theorem W_sub (nk : Nat) (w0 : Nat → UInt32) (m p q : Nat) (hp : p + nk = m) (hq : q + 1 = m)
+    (hnk : 6 < nk) (hmod : m % nk = 4) :
+    W nk w0 m = W nk w0 p ^^^ Rijndael.subWord (W nk w0 q) := by
+  rw [W_ge nk w0 m (by omega) (by omega), gW, if_neg (by omega), if_pos ⟨hnk, hmod⟩]
+  congr 2 <;> congr 1 <;> omega
+
+theorem loop128_step (fuel : Nat) (rk : Array UInt32) (off i : Nat) (rk1 rk2 rk3 rk4 : Array UInt32)
+    (h1 : rk1 = Rijndael.wr rk off 4 (Rijndael.rd rk off 0 ^^^ Rijndael.subRot (Rijndael.rd rk off 3) ^^^
+      Gen.AesTables.rcon.getD i 0))
+    (h2 : rk2 = Rijndael.wr rk1 off 5 (Rijndael.rd rk1 off 1 ^^^ Rijndael.rd rk1 off 4))
+    (h3 : rk3 = Rijndael.wr rk2 off 6 (Rijndael.rd rk2 off 2 ^^^ Rijndael.rd rk2 off 5))
+    (h4 : rk4 = Rijndael.wr rk3 off 7 (Rijndael.rd rk3 off 3 ^^^ Rijndael.rd rk3 off 6)) :
+    Rijndael.loop128 (fuel + 1) rk off i =
+      if (i + 1 == 10) = true then rk4 else Rijndael.loop128 fuel rk4 (off + 4) (i + 1) := by
+  subst h1 h2 h3 h4
+  rfl
+
+theorem loop128_ok (w0 : Nat → UInt32) : ∀ fuel rk i, i + fuel = 10 → Agree rk (4 + 4 * i) (W 4 w0) →
+    Agree (Rijndael.loop128 fuel rk (4 * i) i) 44 (W 4 w0) := by
+  intro fuel
+  induction fuel with
+  | zero =>
+    intro rk i hi h
+    have : i = 10 := by omega
+    subst this
+    exact h
+  | succ fuel ih =>
+    intro rk i hi h
+    have hi10 : i < 10 := by omega
+    obtain ⟨rk1, h1⟩ : ∃ rk1, rk1 = Rijndael.wr rk (4 * i) 4 (Rijndael.rd rk (4 * i) 0 ^^^
+      Rijndael.subRot (Rijndael.rd rk (4 * i) 3) ^^^ Gen.AesTables.rcon.getD i 0) := ⟨_, rfl⟩
+    obtain ⟨rk2, h2⟩ : ∃ rk2, rk2 = Rijndael.wr rk1 (4 * i) 5 (Rijndael.rd rk1 (4 * i) 1 ^^^
+      Rijndael.rd rk1 (4 * i) 4) := ⟨_, rfl⟩
+    obtain ⟨rk3, h3⟩ : ∃ rk3, rk3 = Rijndael.wr rk2 (4 * i) 6 (Rijndael.rd rk2 (4 * i) 2 ^^^
+      Rijndael.rd rk2 (4 * i) 5) := ⟨_, rfl⟩
+    obtain ⟨rk4, h4⟩ : ∃ rk4, rk4 = Rijndael.wr rk3 (4 * i) 7 (Rijndael.rd rk3 (4 * i) 3 ^^^
+      Rijndael.rd rk3 (4 * i) 6) := ⟨_, rfl⟩
+    rw [loop128_step fuel rk (4 * i) i rk1 rk2 rk3 rk4 h1 h2 h3 h4]
+    have a1 : Agree rk1 (4 + 4 * i + 1) (W 4 w0) := by
+      refine h.wr _ _ _ _ h1 (by omega) (by omega) ?_
+      rw [h.rd _ _ (by omega), h.rd _ _ (by omega), rcon_eq i hi10, UInt32.xor_assoc]
+      exact (W_rot 4 w0 _ _ _ _ (by omega) (by omega) (by omega) (by omega) (by omega)).symm
+    have a2 : Agree rk2 (4 + 4 * i + 1 + 1) (W 4 w0) := by
+      refine a1.wr _ _ _ _ h2 (by omega) (by omega) ?_
+      rw [a1.rd _ _ (by omega), a1.rd _ _ (by omega)]
+      exact (W_plain 4 w0 _ _ _ (by omega) (by omega) (by omega) (by omega) (by omega)).symm
+    have a3 : Agree rk3 (4 + 4 * i + 1 + 1 + 1) (W 4 w0) := by
+      refine a2.wr _ _ _ _ h3 (by omega) (by omega) ?_
+      rw [a2.rd _ _ (by omega), a2.rd _ _ (by omega)]
+      exact (W_plain 4 w0 _ _ _ (by omega) (by omega) (by omega) (by omega) (by omega)).symm
+    have a4 : Agree rk4 (4 + 4 * i + 1 + 1 + 1 + 1) (W 4 w0) := by
+      refine a3.wr _ _ _ _ h4 (by omega) (by omega) ?_
+      rw [a3.rd _ _ (by omega), a3.rd _ _ (by omega)]
+      exact (W_plain 4 w0 _ _ _ (by omega) (by omega) (by omega) (by omega) (by omega)).symm
+    by_cases hlast : i + 1 = 10
+    · rw [if_pos (by simp; omega)]
+      exact a4.cast (by omega)
+    · rw [if_neg (by simp; omega)]
+      have e : 4 * i + 4 = 4 * (i + 1) := by omega
+      rw [e]
+      exact ih rk4 (i + 1) (by omega) (a4.cast (by omega))
+
 end Relic.Lemmas.Rijndael
